@@ -123,6 +123,15 @@ CHECKS = {
             "constructor-built twin, with twins perturbed in one cell / shape / common, and with non-index objects.",
             "Sampled histories; ill-formed or model-divergent objects end their history (blame C07/C06).",
             "DESIGN.md section 2 C15"),
+    "C16": ("exploration",
+            "deterministic seeded scheduler (sys.monitoring INSTRUCTION yield points on catii code, uniform + PCT strategies) + real-thread stress + write-set monitor",
+            "Pooled calculate is run under a substitute pool whose workers hand a baton over at catii-bytecode granularity "
+            "according to a seeded strategy (replayable schedules; events, switches and distinct schedule hashes are "
+            "reported) and under the real ThreadPool with a 1e-6 switch interval; every result is compared bit for bit with "
+            "the serial run of twin objects, and proxies around the aggregate functions record the region views handed to "
+            "each task, which must be pairwise disjoint views of the call's own regions.",
+            "Schedules are sampled, not enumerated; whole NumPy/kernel calls are atomic under the controlled scheduler.",
+            "DESIGN.md section 2 C16"),
     "C17": ("exploration",
             "byte-snapshot monitor of every argument around every entry point + result comparison across repeated/permuted/reused calls",
             "Deep snapshots (dtype, shape, bytes, dict order, index attributes) of all arguments are compared before/after "
@@ -148,6 +157,15 @@ CHECKS = {
             "Trusts numpy.iinfo; the partition is induced by powers of two, so a threshold at a non-power-of-two "
             "constant would only be seen by the random pairs.",
             "DESIGN.md section 2 C19"),
+    "C20": ("fault_enumeration",
+            "fault-plan enumeration over cancellation points: callback event log + outcome checker, serial / real pool / controlled scheduler",
+            "For each cube (1-24 sub-cubes) every singleton fault plan (the callback raises a fresh exception instance at "
+            "invocation i, for every i) is executed in serial mode, under the real ThreadPool and under the deterministic "
+            "scheduler, plus sampled multi-element plans; calculate must raise one of the raised instances (return iff the "
+            "plan is empty), consult the callback at most once per sub-cube (exactly min(S)+1 times serially), and a "
+            "following fault-free calculate on the same objects must equal a fresh evaluation bit for bit.",
+            "Tasks that keep running in pool threads after calculate raised are counted as evidence only.",
+            "DESIGN.md section 2 C20"),
 }
 
 PENDING_REASON = "check not built yet in this session (work in progress; runtime monitoring does apply, see DESIGN.md)"
